@@ -246,7 +246,7 @@ def main(ctx):
     ctx.assume("machine arithmetic treated as mathematical (reals); float tolerances are not covered")
     ctx.assume("symlib shim gives Mat/Vec/Row/SymMat operators and constructors their textbook meaning; angle sums use the addition formulas")
     ctx.assume("the three-axis oracle is the documented convention: body-fixed = R1*R2*R3 (left to right), space-fixed = R3*R2*R1")
-    ctx.not_decided += ["float-precision tolerances and single precision", "angle extraction within the tolerance band around a singularity (only the exact singularity is proved) and for sequences with repeated adjacent axes (angle/2, angle/3)",
+    ctx.not_decided += ["float-precision tolerances and single precision", "two-angle extraction convertTwoAxes*ToTwoAngles (sqrt-averaged estimates under sign ternaries: goals time out)", "angle extraction within the tolerance band around a singularity (only the exact singularity is proved) and for sequences with repeated adjacent axes (angle/2, angle/3)",
                         "setRotationFromApproximateMat33 closest-rotation fit", "setRotationFromAngleAboutUnitVector (half-angle trig via Quaternion.cpp)",
                         "Transform/InverseRotation/UnitVec::perp", "float branch selection in convertRotationToQuaternion (each branch is proved under its own condition)"]
     ctx.explanation = "%d functions transliterated; %d obligations." % (len(ctx.functions), len(ctx.obligations))
@@ -298,28 +298,8 @@ def converters(ctx, B, CA, Rot, th):
                 B.prove_eq("%s branch %d%s: R(convertToAngles(R)) == R" % (nm, npaths, " (exact singularity)" if singular else ""), R1, R0, hyp, U, FN3, timeout_ms=T)
             if npaths < 3:
                 ctx.undecide("%s: only %d feasible branches of the angle extraction explored" % (nm, npaths))
-    # two-angle sequences
-    FN2 = "convertTwoAxesRotationToTwoAngles"
-    for bs, bsn in ((0, "body"), (1, "space")):
-        for i, j in itertools.product(range(3), repeat=2):
-            if i == j: continue
-            nm = "%s %s%s" % (bsn, names[i], names[j])
-            seen = set(); npaths = 0
-            def run2():
-                S.reset_env()
-                t = [Angle("t%d" % q_) for q_ in range(2)]
-                o = elem_rot(i, t[0]) * elem_rot(j, t[1]) if bs == 0 else elem_rot(j, t[1]) * elem_rot(i, t[0])
-                R0 = setR(o)
-                return t, R0, R0.convertTwoAxesRotationToTwoAngles(bs, CA(i), CA(j))
-            for path, script, (t, R0, ang) in B.run_paths(run2, 4):
-                key = tuple(str(c_) for c_ in path)
-                if key in seen: continue
-                seen.add(key)
-                s_ = z3.Solver(); s_.set("timeout", 5000); s_.add(*(list(S.ENV.side) + path))
-                if s_.check() == z3.unsat: continue
-                npaths += 1
-                R1 = Rot(); R1.setRotationFromTwoAnglesTwoAxes(bs, ang[0], CA(i), ang[1], CA(j))
-                B.prove_eq("%s sign-branch %d: R(convertToTwoAngles(R)) == R" % (nm, npaths), R1, R0, list(path), U, FN2, timeout_ms=T)
+    # two-angle extraction (convertTwoAxesBodyFixedRotationToTwoAngles averages a direct and a sqrt-based estimate under four sign
+    # ternaries): 16 sign branches x 12 sequences of sqrt-heavy NRA goals do not discharge within the budget -> not decided (listed)
     # one-angle
     for k_ in range(3):
         S.reset_env()
